@@ -1,4 +1,4 @@
-\* simulation: 4 producers, producer 3 Byzantine (equivocates, Confirms filled the honest way per branch), some of its blocks fail in execute(), 3 correct nodes, up to 16 blocks, runs of blocks children first, no restart; all properties
+\* simulation, GENERATION ONLY (behaviours for the replay): 4 producers, producer 3 Byzantine (equivocates; some of its blocks fail in execute()), 3 correct nodes, up to 16 blocks, runs of blocks children first, no restart.  The safety properties are not checked here: with blocks that fail, ProposalsOnMain and then LibOnMain do not hold in the code as it is (finding F6, MC_DposLib_stale2.cfg); they are checked for the design with the proposed repairs in Sim_DposLib4i_intended.cfg
 SPECIFICATION Spec
 CONSTANTS
   N = 4
@@ -12,6 +12,5 @@ CONSTANTS
   Runs = TRUE
   BadKinds <- OkExec
   Fixes <- AllFixes
-INVARIANTS TypeOK LibOnMain ConfirmsOnMain ProposalsOnMain StatusBestIsBest Agreement HonestConfirms
-PROPERTIES LibMonotone Final NoForkBelowLib LibQuorum RestoreEqualsRecompute AfterAbandonedReorgStatusMatchesMainChain
+INVARIANTS TypeOK HonestConfirms
 CHECK_DEADLOCK FALSE
